@@ -480,6 +480,9 @@ func gen(c *harness.C) []harness.Case {
 		}
 	}
 	if haveBLS {
+		for _, nt := range [][2]int{{12, 9}, {20, 20}, {21, 21}, {25, 22}, {31, 31}, {40, 21}, {64, 33}} {
+			cases = append(cases, blsLargeQuorumCase(nt[0], nt[1]))
+		}
 		// committees whose identifiers are not 1..n in ascending order
 		idsets := [][]uint16{{5, 7, 9}, {11, 4, 6}, {2, 1, 3}}
 		if c.Thorough() {
